@@ -365,6 +365,19 @@ def gen_desc(rng, scratch):
                 inc += rng.choice([["-I", dn], ["-I" + dn], ["-isystem", dn]])
             desc["platforms"][pname].append({"file": "c14_arch_user.c", "directory": ".",
                                              "arguments": ["gcc"] + inc + ["-c", "c14_arch_user.c"]})
+    # platform names that differ only in case: every sort of names has to be total, not case-folded (a tie is broken by
+    # set iteration order, i.e. by the hash seed)
+    if len(desc["platforms"]) >= 2 and rng.random() < 0.3:
+        a, b = rng.sample(sorted(desc["platforms"]), 2)
+        if a.upper() != a and a.upper() not in desc["platforms"]:
+            desc["platforms"] = {(a.upper() if k == b else k): v for k, v in desc["platforms"].items()}   # e.g. cpu and CPU
+    # a symbolic link in another directory than its (in-tree) target: the file's lines belong to the target's directory
+    # in the tree view whichever of the two names the walk meets first
+    if rng.random() < 0.5:
+        srcs = [f for f in desc["texts"] if "/" in f and f.endswith((".c", ".cpp", ".h", ".hpp"))]
+        if srcs:
+            t = rng.choice(srcs)
+            desc["links"].append((f"c14_drivers/{'a' if rng.random() < 0.5 else 'z'}_" + os.path.basename(t), t))
     # two hard-linked names of one file plus a byte-identical copy: all three are members with the same content, so they
     # form one duplicate group whichever of them the (hash-ordered) grouping loop meets first
     desc["hardlinks"] = []
